@@ -1767,8 +1767,9 @@ func IsSelectAllAggregate(query *Query) bool {
 
 func ExecSelect(query *Query, current []any) ([]any, error) {
 	copy := make([]any, 0)
-	if IsSelectAllAggregate(query) {
-		// the aggregates are computed over the rows this stage was given (those that passed WHERE)
+	if len(query.groupDefinition) == 0 && IsSelectAllAggregate(query) {
+		// the aggregates are computed over the rows this stage was given (those that passed WHERE);
+		// with GROUP BY every group is a row of its own, whose aggregates cover its members
 		rs, err := SelectExpr(query, Map{"*": current}, &query.selectDefinition)
 		if err != nil {
 			return nil, err
